@@ -153,12 +153,14 @@ def run(ctx, ck):
 
     # ---------------------------------------------------------------- D3
     sites = []
-    for q in (CC, 'mininec.Geobj.compute_ground', 'mininec.Wire.compute_ground',
-              'mininec.Arc.compute_ground', 'mininec.Helix.compute_ground'):
-        g = m.func(q)
+    # every local that is computed from <x>.min_seglen by a product (the tolerance), wherever it is
+    for g in sorted(m.all_funcs(), key=lambda x: x.qual):
+        if g.module.name != 'mininec':
+            continue
         for s in walk_no_nested(g.node):
-            if isinstance(s, ast.Assign) and any(isinstance(x, ast.Attribute) and x.attr == 'min_seglen'
-                                                 for x in ast.walk(s.value)):
+            if isinstance(s, ast.Assign) and isinstance(s.targets[0], ast.Name) and isinstance(s.value, ast.BinOp) and \
+               any(isinstance(x, ast.Attribute) and x.attr == 'min_seglen' and isinstance(x.ctx, ast.Load)
+                   for x in ast.walk(s.value)):
                 pr = product_of(s.value)
                 sites.append((g, s, pr))
     ck.floor('tolerance sites', len(sites), 5)
@@ -182,13 +184,23 @@ def run(ctx, ck):
               'tolerance = %r * %s' % (pr.coef, nn))
     ck.ob('R-LIT.tolerance', 'all-equal', len(coefs) == 1, f.loc(), 'tolerance literals used: %s' % sorted(coefs))
     # matching comparison uses the tolerance with <=
-    cmp_ = [n for n in walk_no_nested(f.node) if isinstance(n, ast.Compare) and 'linalg.norm' in norm(n.left)]
-    ok = len(cmp_) == 1 and isinstance(cmp_[0].ops[0], (ast.LtE, ast.Lt))
-    if ok:
-        r = fl.roots(cmp_[0].comparators[0], fl.node_id_of(cmp_[0]))
-        ok = any(x[0] == 'attrname' and x[1] == 'min_seglen' for x in r) or \
-            any(x[0] == 'attr' and x[1].endswith('min_seglen') for x in r)
-    ck.ob('R-LIT.tolerance', CC + '|distance-compare', ok, f.loc(cmp_[0] if cmp_ else None),
+    from ..rules import self_closure
+    cmp_ = []
+    for g_ in self_closure(ctx, f):
+        gfl_ = ctx.flow(g_)
+        for n in walk_no_nested(g_.node):
+            if isinstance(n, ast.Compare) and len(n.ops) == 1:
+                rl = gfl_.roots(n.left, gfl_.node_id_of(n))
+                rr = gfl_.roots(n.comparators[0], gfl_.node_id_of(n))
+                dist = lambda r_: any(x[0] == 'call' and x[1].endswith('linalg.norm') for x in r_)
+                tol = lambda r_: any((x[0] == 'attrname' and x[1] == 'min_seglen') or
+                                     (x[0] == 'attr' and x[1].endswith('min_seglen')) for x in r_)
+                if dist(rl) and tol(rr):
+                    cmp_.append((g_, n, n.ops[0]))
+                elif dist(rr) and tol(rl):
+                    cmp_.append((g_, n, {ast.Gt: ast.Lt(), ast.GtE: ast.LtE()}.get(type(n.ops[0]), n.ops[0])))
+    ok = len(cmp_) == 1 and isinstance(cmp_[0][2], (ast.LtE, ast.Lt))
+    ck.ob('R-LIT.tolerance', CC + '|distance-compare', ok, cmp_[0][0].loc(cmp_[0][1]) if cmp_ else f.loc(),
           'ends joined when distance <= tolerance')
     from ._endidx import check_end_index
     ck.rule('R-COUNT.end-index', 'predicted index of the end pulses == number of pulses created before them (all end states)')
